@@ -276,7 +276,7 @@ def many_scopes_program(k):
     def body(vis, depth):
         es = []
         for n in r.sample(SIMILAR_NAMES, r.randint(0, 2)):
-            es.append(Let(n, nxt()))
+            es.append(Let(n, nxt() if r.random() < 0.8 else N()))          # (sometimes initialised with the literal null)
             vis = vis | {n}
         es.append(show(vis))
         while budget[0] > 0 and (depth == 0 or r.random() < 0.4):
